@@ -1326,6 +1326,237 @@ func layGenPipe(c *Ctx, i int) {
 	}
 }
 
+
+// ---------- kern-only fonts: chains of overlapping kern pairs (stream layout.kernadv) ----------
+
+// layGenKernAdv: Go Regular plus a kern table in which (nearly) every ordered pair of a few letters is
+// a kern pair, and texts of 3-6 of these letters: the advance of every glyph must be its hmtx width
+// plus the kern value of the pair it forms with the next glyph (legacy kern semantics).
+func layGenKernAdv(c *Ctx) {
+	r := c.Rng
+	letters := []rune("AVTWYoyLP.")
+	r2 := append([]rune(nil), letters...)
+	for i := range r2 {
+		j := r.Intn(i + 1)
+		r2[i], r2[j] = r2[j], r2[i]
+	}
+	alpha := r2[:r.Range(2, 4)]
+	n := r.Range(3, 6)
+	if r.Chance(1, 8) {
+		n = r.Range(1, 2)
+	}
+	text := make([]rune, n)
+	for i := range text {
+		text[i] = Pick(r, alpha)
+	}
+	font0, err := sfnt.Read(bytes.NewReader(layFontBytes("regular", nil, nil)))
+	if err != nil {
+		panic(err)
+	}
+	_, wArg, _, gids, ng := layFacts(font0, text)
+	for _, x := range alpha {
+		if _, ok := gids[x]; !ok {
+			sub, _ := font0.CMapTable.GetBest()
+			gids[x] = sub.Lookup(x)
+		}
+	}
+	nsub := Pick(r, []int{1, 1, 2, 3})
+	subs := make([]laySub, nsub)
+	for i := range subs {
+		s := &subs[i]
+		s.flags = 1
+		if i > 0 {
+			s.flags = Pick(r, []int{1, 1, 3, 9})
+		}
+		for _, a := range alpha {
+			for _, b := range alpha {
+				if r.Chance(5, 6) {
+					v := r.Range(-200, 200)
+					if v == 0 {
+						v = -77
+					}
+					s.pairs = append(s.pairs, [3]int{int(gids[a]), int(gids[b]), v})
+				}
+			}
+		}
+		sort.Slice(s.pairs, func(a, b int) bool {
+			if s.pairs[a][0] != s.pairs[b][0] {
+				return s.pairs[a][0] < s.pairs[b][0]
+			}
+			return s.pairs[a][1] < s.pairs[b][1]
+		})
+	}
+	ti := make([]int, n)
+	gi := make([]int, n)
+	for i, x := range text {
+		ti[i], gi[i] = int(x), int(gids[x])
+	}
+	// widths of the letters' glyphs
+	out := c.Case(Direct, "layout.kernadv", fmt.Sprintf("subs=%s kern=%s text=%s gids=%s ng=%d w=%s", layShowSubs(subs), hx(layEncKern(subs)),
+		layJoin(ti, ","), layJoin(gi, ","), ng, wArg), n >= 3)
+	c.Stat("kernadv.text_length", fmt.Sprint(n))
+	c.Stat("kernadv.subtables", fmt.Sprint(nsub))
+	c.Stat("kernadv.outcome", strings.SplitN(out, ":", 2)[0])
+}
+
+// ---------- feature records sharing a feature table (stream layout.alias) ----------
+
+// layAliasGsub builds the GSUB table of an alias case: lookup k is a single substitution src[k] ->
+// src[k]+300; the feature list is written by the library's encoder and then the offsets of the feature
+// records named in alias ("j:i" = record j points to the feature table of record i) are patched.
+func layAliasGsub(fc *layFind, src []int, alias [][2]int) []byte {
+	info := fc.info()
+	info.LookupList = make(gtab.LookupList, len(src))
+	for k, g := range src {
+		info.LookupList[k] = &gtab.LookupTable{Meta: &gtab.LookupMetaInfo{LookupType: 1},
+			Subtables: []gtab.Subtable{&gtab.Gsub1_1{Cov: coverage.Set{glyph.ID(g): true}, Delta: 300}}}
+	}
+	b := info.Encode()
+	fl := int(b[6])<<8 | int(b[7])
+	nrec := int(b[fl])<<8 | int(b[fl+1])
+	if nrec != len(fc.feats) {
+		panic("alias: unexpected feature count")
+	}
+	orig := make([][2]byte, nrec)
+	for j := 0; j < nrec; j++ {
+		orig[j] = [2]byte{b[fl+2+6*j+4], b[fl+2+6*j+5]}
+	}
+	for _, a := range alias {
+		b[fl+2+6*a[0]+4], b[fl+2+6*a[0]+5] = orig[a[1]][0], orig[a[1]][1]
+	}
+	return b
+}
+
+func layParseAlias(s string) [][2]int {
+	var out [][2]int
+	if s == "" || s == "-" {
+		return nil
+	}
+	for _, p := range strings.Split(s, ",") {
+		var a, b int
+		if _, err := fmt.Sscanf(p, "%d:%d", &a, &b); err != nil {
+			panic("bad alias")
+		}
+		out = append(out, [2]int{a, b})
+	}
+	return out
+}
+
+func layRunAlias(f Fields) string {
+	fc := layParseFind(f)
+	src := f.Ints("src")
+	data := layAliasGsub(fc, src, layParseAlias(f["alias"]))
+	layBaseOnce.Do(layLoadBase)
+	tabs := map[string][]byte{}
+	for k, v := range layBase["regular"] {
+		tabs[k] = v
+	}
+	tabs["GSUB"] = data
+	var buf bytes.Buffer
+	if _, err := header.Write(&buf, layScaler["regular"], tabs); err != nil {
+		panic(err)
+	}
+	font, err := sfnt.Read(bytes.NewReader(buf.Bytes()))
+	if err != nil {
+		return errKind(err)
+	}
+	lang := language.MustParse(fc.lang)
+	sw := fc.sw
+	if sw == nil {
+		sw = gtab.GsubDefaultFeatures
+	}
+	ll := font.Gsub.FindLookups(lang, sw)
+	lay, err := font.NewLayouter(lang, fc.sw, nil)
+	if err != nil {
+		return "err:layouter"
+	}
+	seq := lay.Layout(string(layRunes(f["text"])))
+	gs := make([]int, len(seq))
+	for i, g := range seq {
+		gs[i] = int(g.GID)
+	}
+	return fmt.Sprintf("lookups=%s;gids=%s", layShowLookups(ll), layJoin(gs, ","))
+}
+
+func layGenAlias(c *Ctx) {
+	r := c.Rng
+	tags := []string{"liga", "dlig", "calt", "ccmp", "smcp", "clig", "locl", "ss01"}
+	nFeat := r.Range(2, 5)
+	nl := r.Range(1, 5)
+	letters := []rune("abcdeghk") // no f: the font has no other GSUB
+	fc := &layFind{langs: map[string]*gtab.Features{}, nl: nl, lang: Pick(r, []string{"en", "de", "und"})}
+	for j := 0; j < nFeat; j++ {
+		ft := &gtab.Feature{Tag: Pick(r, tags)}
+		if r.Chance(1, 5) && j > 0 { // the converse: the same tag twice, different tables
+			ft.Tag = fc.feats[r.Intn(j)].Tag
+		}
+		for k := r.Range(1, 2); k > 0; k-- {
+			ft.Lookups = append(ft.Lookups, gtab.LookupIndex(r.Intn(nl)))
+		}
+		fc.feats = append(fc.feats, ft)
+	}
+	ls := &gtab.Features{Required: 0xFFFF}
+	if r.Chance(1, 5) {
+		ls.Required = gtab.FeatureIndex(r.Intn(nFeat))
+	}
+	for j := 0; j < nFeat; j++ {
+		if r.Chance(5, 6) {
+			ls.Optional = append(ls.Optional, gtab.FeatureIndex(j))
+		}
+	}
+	fc.tags = []string{"und-Latn-x-latn"}
+	fc.langs[fc.tags[0]] = ls
+	// 1-3 records share the table of another record
+	var alias [][2]int
+	var ap []string
+	used := map[int]bool{}
+	for k := r.Range(0, 3); k > 0; k-- {
+		j, i := r.Intn(nFeat), r.Intn(nFeat)
+		if j == i || used[j] {
+			continue
+		}
+		used[j] = true
+		alias = append(alias, [2]int{j, i})
+		ap = append(ap, fmt.Sprintf("%d:%d", j, i))
+	}
+	// switches enabling some of the tags
+	switch r.Intn(5) {
+	case 0:
+		fc.sw = nil
+	default:
+		fc.sw = map[string]bool{}
+		for _, ft := range fc.feats {
+			if r.Bool() {
+				fc.sw[ft.Tag] = r.Chance(2, 3)
+			}
+		}
+	}
+	font0, err := sfnt.Read(bytes.NewReader(layFontBytes("regular", nil, nil)))
+	if err != nil {
+		panic(err)
+	}
+	sub, _ := font0.CMapTable.GetBest()
+	src := make([]int, nl)
+	for k := range src {
+		src[k] = int(sub.Lookup(letters[k]))
+	}
+	n := r.Range(1, 8)
+	ti, gi := make([]int, n), make([]int, n)
+	for i := range ti {
+		x := Pick(r, letters)
+		ti[i], gi[i] = int(x), int(sub.Lookup(x))
+	}
+	aliasArg := strings.Join(ap, ",")
+	if aliasArg == "" {
+		aliasArg = "-"
+	}
+	args := fmt.Sprintf("%s alias=%s src=%s text=%s gids=%s", fc.args(0), aliasArg, layJoin(src, ","), layJoin(ti, ","), layJoin(gi, ","))
+	out := c.Case(Direct, "layout.alias", args, len(alias) > 0)
+	c.Stat("alias.shared_records", fmt.Sprint(len(alias)))
+	c.Stat("alias.features", fmt.Sprint(nFeat))
+	c.Stat("alias.outcome", strings.SplitN(out, "=", 2)[0])
+}
+
 func areaLayout(c *Ctx) {
 	nFind := c.N / 2
 	nKern := c.N / 5
@@ -1348,6 +1579,10 @@ func areaLayout(c *Ctx) {
 	}
 	for i := 0; i < c.N/4; i++ {
 		layGenPipe(c, i)
+	}
+	for i := 0; i < c.N/12; i++ {
+		layGenKernAdv(c)
+		layGenAlias(c)
 	}
 }
 
@@ -1482,5 +1717,24 @@ func init() {
 	}
 	ops["layout.trivial"] = func(f Fields) string { return "ok" }
 	ops["layout.ligd"] = func(f Fields) string { return "ok" }
+	ops["layout.alias"] = func(f Fields) string { return canonPanic(guard(func() string { return layRunAlias(f) })) }
+	ops["layout.kernadv"] = func(f Fields) string {
+		return canonPanic(guard(func() string {
+			font, err := sfnt.Read(bytes.NewReader(layFontBytes("regular", nil, f.Hex("kern"))))
+			if err != nil {
+				return errKind(err)
+			}
+			lay, err := font.NewLayouter(language.English, map[string]bool{}, nil)
+			if err != nil {
+				return "err:layouter"
+			}
+			seq := lay.Layout(string(layRunes(f["text"])))
+			parts := make([]string, len(seq))
+			for i, g := range seq {
+				parts[i] = fmt.Sprintf("%d/%d", g.GID, g.Advance)
+			}
+			return "ok:" + strings.Join(parts, ";")
+		}))
+	}
 	ops["layout.pipeline"] = func(f Fields) string { return canonPanic(guard(func() string { return layRunPipeline(f) })) }
 }
